@@ -39,6 +39,7 @@ fn text(n: i64, host: i64, x: &Value) -> Option<String> {
         "ref" => format!("={}", addr(n, host, a)),
         "add" => format!("={}+{}", addr(n, host, a), addr(n, host, b)),
         "sum" => format!("=SUM(Sheet1!A1:A{n})"),
+        "count" => format!("=COUNT(Sheet1!A1:A{n})"),
         "if" => format!("=IF({}>0,{},{})", addr(n, host, c), addr(n, host, a), addr(n, host, b)),
         "seq" => format!("=SEQUENCE({})", addr(n, host, a)),
         "seqh" => format!("=SEQUENCE(1,{})", addr(n, host, a)),
@@ -134,6 +135,7 @@ pub fn run(path: &str, out_dir: &str, n: i64) -> Result<Value, String> {
                 break;
             }
             // ---- C05 / C31: every cell against the spec state
+            let mut step_mism: Vec<(i64, &str, String, String)> = vec![];
             for &d in &cells {
                 rep.n_checks += 1;
                 let want = &st["shown"][(d - 1) as usize];
@@ -148,7 +150,7 @@ pub fn run(path: &str, out_dir: &str, n: i64) -> Result<Value, String> {
                         let spill = st["owner"][(d - 1) as usize].as_i64().unwrap_or(0) != 0 || want["e"] == "SPILL" || got[1] == "#SPILL!" || content.get(&d).map(|x| x["k"] == "seq" || x["k"] == "seqh").unwrap_or(false) || owner(&um, n, d) != 0;
                         let prop = if spill { "C31" } else { "C05" };
                         let why = format!("want-{}{}-got-{}", want["t"].as_str().unwrap_or(""), want["e"].as_str().unwrap_or(""), if got[0] == "e" { got[1].as_str().unwrap_or("").to_string() } else { got[0].as_str().unwrap_or("").to_string() });
-                        rep.mismatch(prop, &why, &kind, json!({"program": program, "cell": d}), format!("cell {d} shows {got}, the specification demands {want}"));
+                        step_mism.push((d, prop, why, format!("cell {d} shows {got}, the specification demands {want}")));
                         ok_so_far = false;
                     }
                 }
@@ -160,6 +162,15 @@ pub fn run(path: &str, out_dir: &str, n: i64) -> Result<Value, String> {
                         rep.mismatch("C31", if wo == 0 { "stale-or-extra-spill-cell" } else { "missing-spill-cell" }, &kind, json!({"program": program, "cell": d}), format!("cell {d}: spill owner row {go}, the specification demands {wo}"));
                         ok_so_far = false;
                     }
+                }
+            }
+            // a COUNT on a cycle that shows a number instead of #CIRC! is one root cause: the cells that read it
+            // differ as a consequence and are not reported separately
+            if let Some(root) = step_mism.iter().find(|m| content.get(&m.0).map(|x| x["k"] == "count").unwrap_or(false)) {
+                rep.mismatch("C05", &root.2, "count-on-cycle", json!({"program": program, "cell": root.0}), root.3.clone());
+            } else {
+                for m in &step_mism {
+                    rep.mismatch(m.1, &m.2, &kind, json!({"program": program, "cell": m.0}), m.3.clone());
                 }
             }
             if !ok_so_far {
